@@ -1647,7 +1647,7 @@ func (fr *Frame) binop(s *ssa.BinOp) Term {
 	case token.SUB:
 		return c.define("sub", "Int", wrapInt(T, app("-", x, y)))
 	case token.MUL:
-		p := c.define("mulx", "Int", app("*", x, y))
+		p := c.define("mulx", "Int", c.mul(x, y))
 		return c.define("mul", "Int", wrapInt(T, p))
 	case token.QUO, token.REM:
 		fr.oblige("div", "division by non-zero", s, not(eq(y, "0")))
@@ -1668,7 +1668,7 @@ func (fr *Frame) binop(s *ssa.BinOp) Term {
 		// non-constant divisor: name quotient and remainder once and state Euclid's identity
 		q := c.define("q", "Int", app("div", x, y))
 		rm := c.define("rm", "Int", app("mod", x, y))
-		yq := c.define("yq", "Int", app("*", y, q))
+		yq := c.define("yq", "Int", c.mul(y, q))
 		c.fact(imp(and(le("0", x), lt("0", y)), and(eq(x, add(yq, rm)), le("0", rm), lt(rm, y), le("0", q), le(q, x))))
 		if !signed {
 			if s.Op == token.QUO {
@@ -1758,8 +1758,30 @@ func (fr *Frame) binop(s *ssa.BinOp) Term {
 	panic("binop " + s.Op.String())
 }
 
+// instantiateAt: instantiate every assumed universal fact at an index the code is about to use
+func (fr *Frame) instantiateAt(i Term) {
+	c := fr.c()
+	if len(c.instantiators) == 0 || isNumeral(i) && false {
+		return
+	}
+	if c.instantiated == nil {
+		c.instantiated = map[string]bool{}
+	}
+	for k, inst := range c.instantiators {
+		key := fmt.Sprintf("%d|%s", k, i)
+		if c.instantiated[key] {
+			continue
+		}
+		c.instantiated[key] = true
+		inst(i)
+	}
+}
+
 func (fr *Frame) indexAddr(s *ssa.IndexAddr) {
 	i := fr.val(s.Index)
+	if _, isSlice := s.X.Type().Underlying().(*types.Slice); isSlice {
+		fr.instantiateAt(i)
+	}
 	switch xt := s.X.Type().Underlying().(type) {
 	case *types.Slice:
 		sl := fr.val(s.X)
